@@ -31,8 +31,9 @@ def _cases() -> List[dict]:
         for M in (100, 1000):
             for rel in (-80, 80, "double"):
                 for shape in ("one-field", "many", "continuation"):
-                    cases.append({"worker": worker, "case": {"limit": "h2_header_list", "M": M, "rel": rel,
-                                                             "shape": shape}})
+                    for opening in ("prior", "h2c"):
+                        cases.append({"worker": worker, "case": {"limit": "h2_header_list", "M": M, "rel": rel,
+                                                                 "shape": shape, "opening": opening}})
         for K in (1, 2, 3, 5):
             for pipelined in (False, True):
                 cases.append({"worker": worker, "case": {"limit": "keepalive_h1", "K": K, "pipelined": pipelined}})
@@ -57,7 +58,7 @@ def plan(tier: str) -> dict:
         "rule": "Per limit: h11_max_incomplete_size {64,200,1000,16384} x head size {below, at, just above, far above} x "
         "arrival {one read, two reads, dribbled} x {first, second request of a connection} x head shape; "
         "h2_max_concurrent_streams {0,1,2,5} x excess {0,1,3} concurrent streams held open; h2_max_header_list_size "
-        "{100,1000,65536} x block size around the limit x {one field, many fields, CONTINUATION}; "
+        "{100,1000,65536} x block size around the limit x {one field, many fields, CONTINUATION} x {prior knowledge, h2c upgrade}; "
         "keep_alive_max_requests {1,2,3,5} sequential or pipelined on HTTP/1 and {1,2,3} on HTTP/2; max_requests "
         "{1,2,5} x jitter {0,1,3} x every jitter outcome (through the patched randint) with the requests spread over "
         "connections of 1..3 requests.  Judged against the limit table with exact counts and virtual instants.",
@@ -298,8 +299,13 @@ def _h2_header_list(tape: Tape, world: World, host: AppHost, case: dict, out: Ou
     T = _hl_size(headers)
     peer = H2Peer()
     peer.clock = lambda: sim.now
+    # the connection is opened with prior knowledge or as an HTTP/1.1 request upgraded to h2c (stream 1); the limit
+    # belongs to the connection whichever way it came to be HTTP/2
+    opening = case.get("opening") or tape.choice(["prior", "prior", "h2c"], "hl.opening")
+    first_sid = peer.new_stream() if opening == "h2c" else None
     sid = peer.new_stream()
     after = peer.new_stream()
+    host.programs[b"first"] = [("recv_all",), ("respond", 200, [], [b"ok"])]
     host.programs[b"big"] = [("recv_all",), ("respond", 200, [], [b"ok"])]
     host.programs[b"after"] = [("recv_all",), ("respond", 200, [], [b"ok"])]
     split = None
@@ -314,13 +320,27 @@ def _h2_header_list(tape: Tape, world: World, host: AppHost, case: dict, out: Ou
         if not sc.ended and peer.goaway is None:
             sc.conn.client.send(peer.headers(after, _h2_headers(b"after"), end_stream=True))
 
-    steps = [("send", peer.preface()), ("wait", lambda sc: peer.settings_frames > 0, 5.0), ("call", open_big),
-             ("wait", lambda sc: peer.stream_done(sid) or peer.goaway is not None, 3.0), ("call", open_after),
-             ("wait", lambda sc: peer.stream_done(after), 2.0)]
-    script = Script(world, steps, peer)
+    sink: Any = peer
+    if opening == "h2c":
+        from ..peers.h2 import H2cUpgradeParser
+
+        first = _get(b"first", b"Connection: Upgrade, HTTP2-Settings\r\nUpgrade: h2c\r\nHTTP2-Settings: "
+                     + peer.settings_payload_b64() + b"\r\n")
+        peer.open_stream(first_sid)
+        opening_steps: List[tuple] = [("send", first + peer.preface()),
+                                      ("wait", lambda sc: sc.ended or peer.stream_done(first_sid), 3.0)]
+        sink = H2cUpgradeParser(peer)
+    else:
+        opening_steps = [("send", peer.preface())]
+    steps = opening_steps + [("wait", lambda sc: peer.settings_frames > 0, 5.0), ("call", open_big),
+                             ("wait", lambda sc: peer.stream_done(sid) or peer.goaway is not None, 3.0),
+                             ("call", open_after), ("wait", lambda sc: peer.stream_done(after), 2.0)]
+    script = Script(world, steps, sink)
     script.start_at(0.1)
     world.run(end_at=20.0)
-    out.sample = {"worker": world.worker, "limit": "h2_header_list", "M": M, "T": T, "shape": shape}
+    out.sample = {"worker": world.worker, "limit": "h2_header_list", "M": M, "T": T, "shape": shape, "opening": opening}
+    if opening == "h2c":
+        sim.probe("c18.h2.header_list_on_upgraded_connection")
     if world.result != "returned":
         bad("server-survives", f"worker_serve ended with {world.result}: {world.exception!r}")
     advertised = peer.server_settings.get(6)
